@@ -8,7 +8,7 @@ import "encoding/json"
 // percent escapes), an error when it designates nothing, the same answer for typed / generic / location-only roots.
 
 // element names: characters that need pointer or URI escaping
-const vC05Alphabet = "/~%#?{} a\xc3\xa9"
+const vC05Alphabet = "/~%#?{} a01\xc3\xa9" // 0 and 1: a name may contain the text of a pointer escape (~0, ~1) literally
 
 func vC05Name(tag string, n int) string {
 	s := vNondetStr(tag, n)
@@ -132,8 +132,9 @@ func vC05Doc(kind int, name string, elem vJ, isRoot bool) vJ {
 
 func vh_C05_resolve() {
 	name := vC05Name("name", 1+vChoose(vParam("name_len", 2), "namelen"))
-	kind := vChoose(5, "kind") // 4: a schema kept under a mixed-case vendor extension of the root
-	inSub := vChoose(2, "where") == 1
+	kind := vChoose(5, "kind")   // 4: a schema kept under a mixed-case vendor extension of the root
+	where := vChoose(3, "where") // 0 root, 1 a sibling document, 2 a document whose location carries a query (others differ by query only)
+	inSub := where >= 1
 	exists := vChoose(2, "exists") == 1
 	form := vChoose(3, "rootform") // 0 typed, 1 generic, 2 location only
 	elem := vC05Elem(kind, "target")
@@ -145,6 +146,12 @@ func vh_C05_resolve() {
 	}
 	_ = elem
 	ld := &vAbsLoader{docs: map[string][]byte{vURoot: vJBytes(rootDoc), vUSub: vJBytes(subDoc)}}
+	const vUQuery = "http://q.example/docs?rev=2"
+	if where == 2 {
+		ld.docs = map[string][]byte{vURoot: vJBytes(rootDoc), vUQuery: vJBytes(subDoc),
+			"http://q.example/docs?rev=1": vJBytes(vC05Doc(kind, name, vC05Elem(kind, "rev-1"), false)),
+			"http://q.example/docs":       vJBytes(vC05Doc(kind, name, vC05Elem(kind, "no-query"), false))}
+	}
 	refName := name
 	if !exists {
 		refName = name + "x" // a sibling that does not exist
@@ -153,8 +160,10 @@ func vh_C05_resolve() {
 		refName = "/" + refName
 	}
 	refStr := "#/" + vC05Sections[kind] + "/" + vPct(vEsc6901(refName))
-	if inSub {
+	if where == 1 {
 		refStr = "sub/a.json" + refStr
+	} else if where == 2 {
+		refStr = vUQuery + refStr
 	}
 	ref, rerr := NewRef(refStr)
 	if rerr != nil {
